@@ -31,7 +31,10 @@ Judge2b(c, rw, ro, d) ==
       j == IF both THEN FirstDiff(rw.stmts[d], ro.stmts[d]) ELSE 0
       kind == IF both /\ j <= Len(rw.stmts[d]) THEN TokKind(rw.stmts[d][j]) ELSE "count"
       lone == LoneAmp(c.out, 1)
-  IN (IF c.gf THEN <<>> ELSE <<<<"gfortran-rejects", 0, 0>>>>) \o
+      \* a line beyond the width that the line clause exempts (a token longer than the width) is truncated by gfortran:
+      \* its verdict only counts for texts whose lines all fit
+      fits == \A i \in DOMAIN c.out : Len(c.out[i]) <= c.width
+  IN (IF c.gf \/ ~fits THEN <<>> ELSE <<<<"gfortran-rejects", 0, 0>>>>) \o
      (IF lone = 0 THEN <<>> ELSE <<<<"lone-ampersand", lone, 0>>>>) \o
      (IF d = 0 THEN <<>>
       ELSE <<<<"tokens:" \o kind, IF d <= Len(ro.ends) THEN ro.ends[d] ELSE Len(c.out), IF d <= Len(rw.ends) THEN rw.ends[d] ELSE Len(c.wide)>>>>)
